@@ -55,7 +55,7 @@ Proof. exact unwrap_keeps_texts. Qed.
 (* deleted scripts and styles are inert in the combined view *)
 Theorem C09_deleted_active_elements_inert : forall old new ops ic dc body,
   let v := view_doc KCombined old new ops ic dc body in
-  forallb (inert_ok false false) (d_body v) = true /\ forallb (inert_ok false false) (d_head v) = true.
+  forallb (inert_ok false false false) (d_body v) = true /\ forallb (inert_ok false false false) (d_head v) = true.
 Proof. exact combined_view_inert. Qed.
 
 Theorem C09_tables :
